@@ -76,7 +76,7 @@ def options(tier, k, allow_random, light=False):
     j = k
     for dx_exp, rel, mode, kz in itertools.product(dxs, (False, True), modes, (True, False)):
         j += 1
-        if light and tier == 'quick' and dx_exp == 10 and j % 3 != 0:   # networks: the coarse step only in every third configuration
+        if light and tier == 'quick' and ((dx_exp == 10 and j % 3 != 0) or (not kz and j % 2 != 0)):   # networks (expensive to build): thinned grid in the quick tier
             continue
         yield dict(dx_exp=dx_exp, relative=rel, seedmode=mode, keep_zero=kz, verbose=j % 2 == 0, pollute=j % 3 == 0, ncalls=2 if j % 4 == 0 else 1, bare=j % 5 == 0, preresponse=j % 7 == 0, rngseed=j, reuse_out=j % 2 == 1, keep_alloc=j % 6 == 0)
 
@@ -99,7 +99,7 @@ def scalars(r, tier, seed):
 
 
 @bound('networks: 3-module chain with 11 fromsig/tosig choices (source, intermediate, several outputs, default, sliced, output upstream of the input), diamond (two consumers of the input), '
-       'module in front of the first consumer (its state must be computed first), complex chain; same option grid (random seeds only where the seeded signals are terminal; quick tier: dx = 2^-10 only in every third configuration)')
+       'module in front of the first consumer (its state must be computed first), complex chain; same option grid (random seeds only where the seeded signals are terminal; quick tier: dx = 2^-10 only in every third and keep_zero_structure=False in every second configuration)')
 def networks(r, tier, seed):
     for k, cid in enumerate(NETWORK_CASES):
         for kw in options(tier, k + seed + 1, cid not in NO_RANDOM, light=True):
